@@ -166,6 +166,9 @@ def run_replay_subprocess(path, timeout=300):
 def explore_task(spec):
     """Worker entry. spec: dict(module, params, seed, max_paths, max_secs, path_secs, task_id)."""
     setup_repo_path()
+    import warnings
+
+    warnings.filterwarnings("ignore", message="coroutine .* was never awaited", category=RuntimeWarning)
     t_wall = time.time()
     mod = importlib.import_module(spec["module"])
     prop = mod.PROPERTY
